@@ -140,6 +140,22 @@ pub fn run(vec: &J) -> Result<J, String> {
             }
             Ok(json!({"op":"enc.long","holder":holder,"ch":ch,"pad":pad,"n":n,"results":results}))
         }
+        "enc.defaultunit" => {
+            // Numbers carrying the id-less default unit (what get_unit_or_default returns for an unknown name), bare and nested
+            let u = libhaystack::units::get_unit_or_default("noSuchUnit");
+            let mut results = Vec::new();
+            for x in [42.0, -0.0, f64::NAN, f64::INFINITY] {
+                let n = Value::Number(Number { value: x, unit: Some(u) });
+                results.extend(encode_all(&n));
+                results.extend(encode_all(&Value::make_list(vec![n.clone()])));
+                let mut d = Dict::new();
+                d.insert("a".into(), n.clone());
+                d.insert("dis".into(), n.clone());
+                results.extend(encode_all(&Value::make_grid(Grid::make_from_dicts(vec![d.clone()]))));
+                results.extend(encode_all(&Value::make_dict(d)));
+            }
+            Ok(json!({"op":"enc.nest","form":"number with the default unit","n":0,"results":results}))
+        }
         "enc.zone" => {
             // a DateTime in the named zone of the bundled tz database (built from the chrono value, no name lookup)
             use chrono::TimeZone;
